@@ -111,9 +111,35 @@ def install(eng):
 
     prev_ref_getattr = eng.hooks.get("ref_getattr")
 
+    def imap_clear(eng_, st, recv, args, kwargs):
+        mo = st.heap[recv.oid]
+        mo.f["has"] = z3.K(IntS, z3.BoolVal(False))
+        return ok(st, VNone)
+
+    def imap_pop(eng_, st, recv, args, kwargs):
+        mo = st.heap[recv.oid]
+        k = as_int(args[0])
+        out = []
+        for s, tv in eng_.fork_bool(z3.Select(mo.f["has"], k), st, "stream.pop"):
+            if tv:
+                ent = entry(s, recv, k)
+                s.heap[ent.oid].f.pop("__backing__", None)
+                m2 = s.heap[recv.oid]
+                m2.f["has"] = z3.Store(m2.f["has"], k, z3.BoolVal(False))
+                out.append((s, ent))
+            elif len(args) > 1:
+                out.append((s, args[1]))
+            else:
+                out.append((s, eng_.raise_py(s, KeyError, "key")))
+        return out
+
     def ref_getattr(eng_, st, ref, o, name):
         if o.kind == "imap" and name == "get":
             return VFunc("bmeth", name="dict.get", recv=ref, impl=imap_get)
+        if o.kind == "imap" and name == "clear":
+            return VFunc("bmeth", name="dict.clear", recv=ref, impl=imap_clear)
+        if o.kind == "imap" and name == "pop":
+            return VFunc("bmeth", name="dict.pop", recv=ref, impl=imap_pop)
         return prev_ref_getattr(eng_, st, ref, o, name) if prev_ref_getattr else None
     eng.hooks["ref_getattr"] = ref_getattr
 
